@@ -70,8 +70,14 @@ class PList:
     def __init__(self, items): self.items = list(items)
 
 
+class _Tomb:
+    def __repr__(self): return "<deleted>"
+    def __deepcopy__(self, memo): return self
+TOMB = _Tomb()
+
+
 class SMap:
-    """dict keyed by (possibly symbolic) byte strings: association list, newest last"""
+    """dict keyed by (possibly symbolic) byte strings: association list, newest last; a deletion appends (key, TOMB)"""
     def __init__(self): self.entries = []
 
 
@@ -257,34 +263,93 @@ class Engine:
 
     # ---- path exploration ------------------------------------------------------------------
     def explore(self, fn):
-        """run fn(engine) over all feasible fork decisions; yields (pc, result) per path"""
+        """run fn(engine) over all feasible fork decisions; returns [(pc, result)] per path.
+
+        Decisions are *model guided*: a model M of the current path condition is kept; at a fork the alternative
+        that is true under M is followed (so it is feasible without asking the solver) and the other alternatives
+        are recorded as deferred obligations.  When the path ends, one query asks whether any deferred alternative
+        was feasible after all; every feasible one becomes a new work item (DESIGN 3.2)."""
         work = [[]]
         results = []
+        seen = set()
         while work:
             self.log = work.pop(); self.pos = 0; self.pc = []; self.newalts = []
+            self.deferred = []; self.model = None
+            key = tuple(self.log)
+            if key in seen: continue
+            seen.add(key)
             try:
                 res = fn(self)
             except Infeasible:
                 continue
             finally:
                 for alt in self.newalts: work.append(alt)
+            for alt in self.resolve_deferred(): work.append(alt)
             self.stats["paths"] += 1
             results.append((list(self.pc), res))
         return results
 
+    def resolve_deferred(self):
+        """which deferred alternatives are feasible?  One query per feasible alternative plus a final unsat."""
+        out = []
+        pending = list(self.deferred)
+        while pending:
+            self.stats["feas_checks"] += 1
+            t = time.time()
+            terms = [z3.And(pre + [alt]) if pre else alt for (_pos, pre, alt, _j, _lg) in pending]
+            r = self.solver.check(z3.Or(terms))
+            self.stats["solver_s"] += time.time() - t
+            if str(r) == "unsat": break
+            if str(r) != "sat": raise Unsupported("solver unknown while closing deferred alternatives")
+            m = self.solver.model()
+            hit = None
+            for k, (_pos, pre, alt, _j, _lg) in enumerate(pending):
+                if z3.is_true(m.eval(z3.And(pre + [alt]) if pre else alt, model_completion=True)):
+                    hit = k; break
+            if hit is None: raise Unsupported("deferred alternative: model evaluates no disjunct to true")
+            pos, pre, alt, j, lg = pending.pop(hit)
+            out.append(lg[:pos] + [j])
+            self.stats["forks"] += 1
+        return out
+
+    def current_model(self):
+        if self.model is None:
+            self.stats["feas_checks"] += 1
+            t = time.time()
+            r = self.solver.check(*self.pc)
+            self.stats["solver_s"] += time.time() - t
+            if str(r) == "unsat": raise Infeasible()
+            if str(r) != "sat": raise Unsupported("solver unknown in feasibility")
+            self.model = self.solver.model()
+        return self.model
+
     def decide(self, alternatives):
-        """alternatives: list of z3 conds (mutually exclusive). returns chosen index."""
+        """alternatives: list of z3 conds (mutually exclusive, jointly exhaustive). returns chosen index."""
         if getattr(self, "attempt", 0): raise NeedFork()     # no fork decisions inside a merge attempt
         if self.pos < len(self.log):
             i = self.log[self.pos]
+            self.model = None           # the forced alternative need not hold in the cached model
         else:
-            feas = [i for i, c in enumerate(alternatives) if self.feasible(c)]
-            if not feas: raise Infeasible()
-            i = feas[0]
-            for j in feas[1:]:
-                self.newalts.append(self.log[:self.pos] + [j])
+            m = self.current_model()
+            i = None
+            for k, c in enumerate(alternatives):
+                if z3.is_true(m.eval(c, model_completion=True)):
+                    i = k; break
+            if i is None:
+                # the model is partial for this condition: fall back to explicit feasibility checks
+                feas = [k for k, c in enumerate(alternatives) if self.feasible(c)]
+                if not feas: raise Infeasible()
+                i = feas[0]
+                for j in feas[1:]:
+                    self.newalts.append(self.log[:self.pos] + [j])
+                self.model = None
+            else:
+                for j, c in enumerate(alternatives):
+                    if j != i:
+                        sc = z3.simplify(c)
+                        if not z3.is_false(sc):
+                            self.deferred.append((self.pos, list(self.pc), c, j, list(self.log[:self.pos])))
             self.log = self.log[:self.pos] + [i]
-            if len(feas) > 1: self.stats["forks"] += 1
         self.pos += 1
         self.pc.append(alternatives[i])
         return i
@@ -497,6 +562,7 @@ class Interp:
             self.frames.pop()
         for d in reversed(node.decorator_list):
             dv = eval(compile(ast.Expression(d), "<dec>", "eval"), fn.__globals__)
+            if dv in (classmethod, staticmethod, property): continue
             conv = DECORATOR_CONVERTERS.get(dv)
             if conv is None and isinstance(d, ast.Call):
                 conv = eval(compile(ast.Expression(d.args[0]), "<dec>", "eval"), fn.__globals__)
@@ -540,6 +606,31 @@ class Interp:
         exc = self.ev(s.exc)
         if isinstance(exc, type): exc = exc()
         raise Raised(exc)
+    def s_Delete(self, s):
+        for t in s.targets:
+            if isinstance(t, ast.Subscript):
+                obj = self.ev(t.value); idx = self.ev(t.slice)
+                if isinstance(obj, SMap):
+                    self.smap_get(obj, idx)          # KeyError when absent
+                    obj.entries.append((idx, TOMB)); continue
+                if isinstance(obj, dict): del obj[idx]; continue
+                if isinstance(obj, PList) and isinstance(idx, int): del obj.items[idx]; continue
+            raise Unsupported("del target")
+
+    def smap_contains(self, m, key):
+        eqs = []
+        for (k, v) in m.entries:
+            r = self.e.bytes_eq(k, key)
+            eqs.append(z3.BoolVal(r) if isinstance(r, bool) else r.t)
+        conds = []
+        for i, (k, v) in enumerate(m.entries):
+            if v is TOMB: continue
+            conds.append(z3.And([eqs[i]] + [z3.Not(x) for x in eqs[i + 1:]]))
+        t = z3.simplify(z3.Or(conds)) if conds else z3.BoolVal(False)
+        if z3.is_true(t): return True
+        if z3.is_false(t): return False
+        return SBool(t)
+
     def s_Assert(self, s):
         if not self.e.branch_on(self.ev(s.test)): raise Raised(AssertionError())
 
@@ -637,7 +728,13 @@ class Interp:
     def ev(self, n):
         m = getattr(self, "e_" + type(n).__name__, None)
         if m is None: raise Unsupported(f"expr {type(n).__name__} line {n.lineno}")
-        return m(n)
+        try:
+            return m(n)
+        except (IndexError, KeyError, ValueError, TypeError, ZeroDivisionError, AttributeError, OverflowError) as ex:
+            # a concrete Python operation of the interpreted program failed: that is the program's exception.
+            # (should it be an interpreter defect instead, the native replay will not reproduce it and the
+            # obligation is reported as a harness error, never as a violation)
+            raise Raised(ex)
 
     def e_Constant(self, n): return n.value
     def e_JoinedStr(self, n): return "<fstring>"
@@ -769,6 +866,10 @@ class Interp:
         return res
 
     def compare(self, op, a, b):
+        if op in (ast.In, ast.NotIn) and isinstance(b, SMap):
+            r = self.smap_contains(b, a)
+            if op is ast.In: return r
+            return (not r) if isinstance(r, bool) else SBool(z3.Not(r.t))
         if op in (ast.In, ast.NotIn):
             items = self.iterate(b) if not isinstance(b, (set, frozenset, dict)) else list(b)
             if has_sym(a) or any(has_sym(x) for x in items):
@@ -831,6 +932,29 @@ class Interp:
             if isinstance(d, staticmethod): return d.__func__
             if isinstance(d, types.FunctionType): return BoundMethod(d, obj)
             return d
+        if isinstance(obj, SMap):
+            if name == "pop":
+                def pop(k, *d):
+                    try:
+                        v = self.smap_get(obj, k)
+                    except Raised as r:
+                        if isinstance(r.exc, KeyError) and d: return d[0]
+                        raise
+                    obj.entries.append((k, TOMB))
+                    return v
+                return BuiltinMethod(pop)
+            if name == "get":
+                def get(k, d=None):
+                    try: return self.smap_get(obj, k)
+                    except Raised as r:
+                        if isinstance(r.exc, KeyError): return d
+                        raise
+                return BuiltinMethod(get)
+            if name == "copy":
+                def cp():
+                    c = SMap(); c.entries = list(obj.entries); return c
+                return BuiltinMethod(cp)
+            raise Unsupported(f"dict.{name} on a symbolic map")
         if isinstance(obj, PList):
             if name == "append": return BuiltinMethod(lambda v: obj.items.append(v))
             if name == "extend": return BuiltinMethod(lambda v: obj.items.extend(self.iterate(v)))
@@ -928,7 +1052,7 @@ class Interp:
             r = self.e.bytes_eq(k, key)
             eqs.append(z3.BoolVal(r) if isinstance(r, bool) else r.t)
         def shape_of(v): return as_sbytes(v).shape() if isinstance(v, (SBytes, bytes)) else ("obj", id(v))
-        def lenclass(v): return as_sbytes(v).shape() if isinstance(v, (SBytes, bytes)) else -1
+        def lenclass(v): return as_sbytes(v).shape() if isinstance(v, (SBytes, bytes)) else ("tomb" if v is TOMB else -1)
         classes = {}
         for i, (k, v) in enumerate(ents): classes.setdefault(lenclass(v), []).append(i)
         alts, keys = [], []
@@ -944,7 +1068,7 @@ class Interp:
         if len(live) == 1: choice = live[0][1]; self.e.pc.append(live[0][0]) if not z3.is_true(live[0][0]) else None
         else:
             i = self.e.decide([a for a, _ in live]); choice = live[i][1]
-        if choice is None: raise Raised(KeyError(key if isinstance(key, bytes) else "<sym>"))
+        if choice is None or choice == "tomb": raise Raised(KeyError(key if isinstance(key, bytes) else "<sym>"))
         val = None
         for i in classes[choice]:
             v = ents[i][1]
